@@ -273,6 +273,14 @@ pub fn run_case(c: &Case) -> (String, String, Vec<String>) {
     (obs, verdict, enc_ops)
 }
 
+/// the operations of a history as they are written for the model, before the history runs (an iterator pass is its `inc`s and the
+/// finish that follows)
+pub fn planned_ops(c: &Case) -> Vec<String> {
+    let mut planned: Vec<String> = Vec::new();
+    for op in &c.ops { match op { BOp::Iter(n) => { for _ in 0..*n { planned.push("inc 1".into()); } planned.push("finishstyle".into()); } _ => planned.push(op.enc()) } }
+    planned
+}
+
 pub fn run(seed: u64, tier: &str, out: &mut Out, fit_only: bool, c04: bool) {
     let mut rng = Rng::new(if c04 { seed ^ 0xC04 } else { seed });
     let n = if tier == "thorough" { 200_000 } else { 3_000 };
@@ -289,8 +297,7 @@ pub fn run(seed: u64, tier: &str, out: &mut Out, fit_only: bool, c04: bool) {
     for _ in 0..n {
         let c = gen_case(&mut rng, fit_only);
         // a panic inside the crate is a failure of this history, not of the harness
-        let mut planned: Vec<String> = Vec::new();
-        for op in &c.ops { match op { BOp::Iter(n) => { for _ in 0..*n { planned.push("inc 1".into()); } planned.push("finishstyle".into()); } _ => planned.push(op.enc()) } }
+        let planned = planned_ops(&c);
         crate::common::about_to_run(&encode(&c, &planned));
         let (obs, mut verdict, ops) = match std::panic::catch_unwind(std::panic::AssertUnwindSafe(|| run_case(&c))) {
             Ok(x) => x,
